@@ -538,10 +538,19 @@ def syn_owner(syn, f, depth=3):
         return cache[q0]
     cur = f
     for _ in range(depth):
-        if cur.get("impl_of") is not None or cur.get("vis", "") != "" or not cur.get("qual"):
+        if cur.get("vis", "") != "" or not cur.get("qual") or cur.get("impl_trait"):
             break
-        callers = [g for g in syn.fns if g is not cur and g["mod"] == cur["mod"] and g.get("body") and
-                   any(n.get("k") == "call" and n["f"].get("k") == "path" and n["f"]["p"] == cur["name"] for n in walk(g["body"]))]
+        if cur.get("impl_of") is None:
+            callers = [g for g in syn.fns if g is not cur and g["mod"] == cur["mod"] and g.get("body") and
+                       any(n.get("k") == "call" and n["f"].get("k") == "path" and n["f"]["p"] == cur["name"] for n in walk(g["body"]))]
+        else:
+            # a private inherent method: called as `x.name(..)` or `Self::name(..)` / `Type::name(..)` from the same module; its name must not be
+            # shared with another method of the module (the receiver's type is not known here)
+            if sum(1 for g in syn.fns if g["mod"] == cur["mod"] and g["name"] == cur["name"]) != 1 or cur["name"] in ("new", "from", "default", "fmt", "clone", "eq", "hash"):
+                break
+            callers = [g for g in syn.fns if g is not cur and g["mod"] == cur["mod"] and g.get("body") and
+                       any((n.get("k") == "mcall" and n["m"] == cur["name"]) or
+                           (n.get("k") == "call" and n["f"].get("k") == "path" and n["f"]["p"].split("::")[-1] == cur["name"] and "::" in n["f"]["p"]) for n in walk(g["body"]))]
         if len(callers) != 1:
             break
         cur = callers[0]
@@ -582,6 +591,42 @@ def borrow(chk, facts, module, keep, rule_texts):
     chk.samples[:] = samples0
     chk.assumptions[:] = assumptions0
     return kept
+
+
+def error_guards(syn, fn, depth=2):
+    """conditions (normalised source, in terms of fn's own names) under which `fn` returns an error before anything else happens:
+    leading `if C { return Err(..) }` statements and leading `helper(args)?` statements whose private helper returns Err exactly on
+    its own guard paths (the helper's parameters are replaced by the arguments)."""
+    out = []
+    body = fn.get("body") or {}
+    helpers = {h["name"]: h for h in local_helpers(syn, fn, depth=1)}
+    for st in body.get("stmts", []):
+        e = strip(st.get("e", {})) if st.get("k") == "expr" else (strip(st.get("init")) if st.get("k") == "local" and st.get("init") is not None else {})
+        if not isinstance(e, dict):
+            break
+        if e.get("k") == "if" and e.get("else") is None and e["c"].get("k") != "let":
+            then_s = src(e["then"], -30).replace(" ", "")
+            if "returnErr(" in then_s:
+                out.append(src(strip(e["c"]), -30).replace(" ", ""))
+                continue
+            break
+        t = e
+        if t.get("k") == "try":
+            c = strip(t["e"])
+            if c.get("k") == "call" and c["f"].get("k") == "path" and c["f"]["p"] in helpers and depth > 0:
+                h = helpers[c["f"]["p"]]
+                params = [inp["pat"].get("name") for inp in h["sig"]["inputs"] if inp.get("pat", {}).get("k") == "pident"]
+                if len(params) == len(c["args"]):
+                    for g in error_guards(syn, h, depth - 1):
+                        for pn, a in zip(params, c["args"]):
+                            g = re.sub(r"(?<![\w.])" + re.escape(pn) + r"(?!\w)", src(strip(a), -30).replace(" ", ""), g)
+                        out.append(g)
+                    continue
+            break
+        if st.get("k") == "local":
+            continue      # a plain let does nothing observable
+        break
+    return out
 
 
 def option_match_as_iflet(m):
